@@ -70,8 +70,9 @@ def _unknown(h5):
 
 def _unknown_named(name):
     def f(h5):
-        h5["events"][name] = np.arange(h5["events/deform"].shape[0],
-                                       dtype=float)
+        # (values between 0 and 1: nothing else to complain about)
+        h5["events"][name] = np.linspace(
+            0.1, 0.9, h5["events/deform"].shape[0])
     return f
 
 
